@@ -215,7 +215,7 @@ theorem eqv_retrDone (c : Cfg) (s : State) (j : Job) (n : Nat) : Eqv s (retrDone
   · exact ⟨by simp only [wuT, List.length_cons]; omega,
       by simp only [osT, List.countP_cons, isEmit]; simp, rfl, rfl⟩
 
-theorem eqv_scanNew (s : State) (x : Nat) : Eqv s (scanNew s x) 1 := by
+theorem eqv_scanNew (c : Cfg) (s : State) (x : Nat) : Eqv s (scanNew c s x) 1 := by
   unfold scanNew; split
   · exact eqv_wu1 s
   · exact ⟨by simp only [wuT, List.length_cons]; omega, rfl, rfl, rfl⟩
@@ -452,7 +452,7 @@ theorem cons_scanEnd {c : Cfg} {s s' : State} {st k : Nat}
       · split at hs
         · simp only [Option.some.injEq] at hs; subst hs; exact eqv_wu1 s1
         · simp only [Option.some.injEq] at hs; subst hs
-          exact (eqv_scanNew s1 _).trans (eqv_scanRequeue c _ _ _)
+          exact (eqv_scanNew c s1 _).trans (eqv_scanRequeue c _ _ _)
     have h := h0.trans key
     have hw := h.wu
     have ho := h.os
@@ -847,7 +847,7 @@ theorem ii_retrDone {c : Cfg} {s : State} (j : Job) (n : Nat) (h : II c s) :
   · exact ii_same h rfl rfl rfl rfl (fun _ _ => rfl)
   · exact ii_same h rfl rfl rfl rfl (fun _ _ => rfl)
 
-theorem ii_scanNew {c : Cfg} {s : State} (x : Nat) (h : II c s) : II c (scanNew s x) := by
+theorem ii_scanNew {c : Cfg} {s : State} (x : Nat) (h : II c s) : II c (scanNew c s x) := by
   unfold scanNew; split
   · exact ii_same h rfl rfl rfl rfl (fun _ _ => rfl)
   · exact ii_same h rfl rfl rfl rfl (fun _ _ => rfl)
